@@ -245,7 +245,31 @@ STUBS = ['h5py -> in-memory model', 'scipy.sparse.csr_matrix(...).toarray() '
          '-> 12-line model (constructor trusted)',
          'builtin max in csc_to_csr -> generalised floor (see C13)']
 
+DTYPES = ['bool', 'int8', 'uint8', 'int16', 'uint16', 'int32', 'uint32',
+          'int64', 'uint64', 'float16', 'float32', 'float64']
+
+
+def h_value_type(ctx, case):
+    """the CSC-to-CSR conversion sizes its buffers by the value type:
+    every numeric type anndata writes has a size (no type is refused)"""
+    import cell_type_mapper.utils.csc_to_csr as CC
+    dt = np.dtype(DTYPES[ctx.choice('value_type', len(DTYPES))])
+    try:
+        got = CC._get_bytes_for_type(dt)
+    except Exception as e:
+        ctx.exception(e, f'{type(e).__name__} for values of type {dt}: '
+                      + str(e)[:60])
+        return 'EXC'
+    ctx.reach('sized')
+    ctx.check(int(got) == dt.itemsize, f'bytes per value of {dt}')
+    return str(dt)
+
+
 HARNESSES = [
+    Harness('value_type_sizes', h_value_type, cases=[{}],
+            funcs=['csc_to_csr._get_bytes_for_type'],
+            bounds='bool, the eight integer types, float16/32/64',
+            expect_reach=['sized']),
     Harness('row_iterator', h_iterate, setup=setup,
             cases=[{'shape': [2, 2], 'enc': e, 'what': 'iter'} for e in
                    ('dense', 'csr', 'csc')]
